@@ -9,6 +9,7 @@ import (
 	"fmt"
 	"net/http"
 	"net/http/httptest"
+	"net/url"
 	"os"
 	"path/filepath"
 	"sort"
@@ -319,6 +320,68 @@ func TestAuthz(t *testing.T) {
 		}
 		if len(sum.Samples) < 3 && len(c.Acl) == 2 {
 			sum.Samples = append(sum.Samples, map[string]any{"method": rq.Method, "path": rq.Path, "acl": acl, "decision": c.D})
+		}
+		if len(r.Divs) > 0 {
+			sum.Diverging++
+			_ = enc.Encode(r)
+		}
+	}
+	if offset == 0 {
+		// where tokens come from, through the route: POST /security/token (open) with client assertions of every shape
+		// and with the admin's credentials; what is issued is then used on a route the client's ACL grants and on one it
+		// does not (the reference is spec/AuthzPersist.tla's TokenByAssertion / AdminLogin + spec/Authz.tla's Decision)
+		r := Result{Idx: idx + 1, Adapter: "http"}
+		h.core.RegisterClient(&security.ClientInfo{ClientID: "tokclient", PublicKey: []byte(clientKeyPEM("tokclient", 1))})
+		h.core.SetClientAccessControls("tokclient", []*security.AccessControl{{Resource: "/datasets*", Action: "read"}})
+		_, _ = h.w.Dsm.CreateDataset("a", nil)
+		post := func(form url.Values) (int, string) {
+			req := httptest.NewRequest(http.MethodPost, "/security/token", strings.NewReader(form.Encode()))
+			req.Header.Set("Content-Type", "application/x-www-form-urlencoded")
+			rec := httptest.NewRecorder()
+			h.handler.ServeHTTP(rec, req)
+			var tr struct {
+				AccessToken string `json:"access_token"`
+			}
+			_ = json.Unmarshal(rec.Body.Bytes(), &tr)
+			return rec.Code, tr.AccessToken
+		}
+		for _, shape := range []string{"fresh", "expired", "notyet", "hs256", "none", "garbage"} {
+			for _, kv := range []int{1, 2} {
+				want := shape == "fresh" && kv == 1
+				code, tok := post(url.Values{"grant_type": {"client_credentials"},
+					"client_assertion_type": {"urn:ietf:params:oauth:grant-type:jwt-bearer"},
+					"client_assertion":      {clientAssertion("tokclient", kv, shape, h.env.NodeID)}})
+				sum.Checks++
+				q := map[string]any{"route": "POST /security/token", "assertion": shape, "key_version": kv, "registered_key_version": 1}
+				if (code == 200 && tok != "") != want {
+					r.Divs = append(r.Divs, Divergence{Kind: "token-issuance", Adapter: "http", Query: q, Expected: map[string]any{"issued": want}, Actual: fmt.Sprintf("HTTP %d, token %v", code, tok != "")})
+				} else if want {
+					sum.Checks += 2
+					if c1, b1 := h.do(http.MethodGet, "/datasets/a/entities", "Bearer "+tok); statusClass(c1, b1) != "served" {
+						r.Divs = append(r.Divs, Divergence{Kind: "issued-token", Adapter: "http", Query: q, Expected: "served (the client's ACL grants read on /datasets*)", Actual: c1})
+					}
+					if c2, b2 := h.do(http.MethodPost, "/datasets/a/entities", "Bearer "+tok); statusClass(c2, b2) != "403" {
+						r.Divs = append(r.Divs, Divergence{Kind: "issued-token", Adapter: "http", Query: q, Expected: "403 (read never suffices for a mutation)", Actual: c2})
+					}
+				}
+			}
+		}
+		for _, good := range []bool{true, false} {
+			secret := "secret"
+			if !good {
+				secret = "wrong"
+			}
+			code, tok := post(url.Values{"grant_type": {"client_credentials"}, "client_id": {"admin"}, "client_secret": {secret}})
+			sum.Checks++
+			q := map[string]any{"route": "POST /security/token", "admin_credentials": good}
+			if (code == 200 && tok != "") != good {
+				r.Divs = append(r.Divs, Divergence{Kind: "token-issuance", Adapter: "http", Query: q, Expected: map[string]any{"issued": good}, Actual: fmt.Sprintf("HTTP %d, token %v", code, tok != "")})
+			} else if good {
+				sum.Checks++
+				if c1, b1 := h.do(http.MethodPost, "/datasets/a/entities", "Bearer "+tok); statusClass(c1, b1) != "served" {
+					r.Divs = append(r.Divs, Divergence{Kind: "issued-token", Adapter: "http", Query: q, Expected: "served (admin)", Actual: c1})
+				}
+			}
 		}
 		if len(r.Divs) > 0 {
 			sum.Diverging++
